@@ -104,7 +104,7 @@ impl Metrics {
     fn collect(&self) -> (String, Bytes) {
         let encoder = prometheus::TextEncoder::new();
 
-        let metric_families = prometheus::gather();
+        let metric_families = self._registry.gather();
         let mut buffer = vec![];
         encoder.encode(&metric_families, &mut buffer).unwrap();
 
